@@ -4,7 +4,7 @@ import arrayprop
 
 def run(tier):
     return arrayprop.standard_run(
-        "C12", tier, profiles=["mixed", "damage", "syncheavy"], nquick=24, nthorough=300, sim=False,
+        "C12", tier, profiles=["mixed", "damage", "filters", "ranges", "syncheavy", "filters"], nquick=36, nthorough=300, sim=False,
         rule="before and after every real command byte-level digests of the data trees (names, bytes, ns mtimes, links), of "
              "every parity stream, of every content copy and the list of all other files are recorded; TLC checks the frame "
              "of the command (C12_Frame) on every step: check/diff change nothing, scrub only content, sync no data file, "
